@@ -7,6 +7,8 @@ C11).
 """
 import ast
 
+from ..core import AnalysisError
+
 from ..cfg import cfg_of
 from ..srcmodel import walk_own, FuncInfo, const_str
 from .common import assignments_to, unparse
@@ -77,20 +79,23 @@ def rule_sections(ctx, res):
     game_sections = sorted(set(attrs) - {'label', 'version'})
     # memory map regions
     w = model.func('pico8.game.game:Game.write_cart_data')
-    regions = set()
-    for n in walk_own(w.node):
-        if isinstance(n, ast.Attribute) and n.attr == '_data' and \
-                isinstance(n.value, ast.Attribute) and \
-                isinstance(n.value.value, ast.Name) and \
-                n.value.value.id == 'self':
-            regions.add(n.value.attr)
-    mem_sections = sorted(regions | {'lua'})
+    from .c18 import extract_rows
+    try:
+        regions = {n for (_a, _b, n) in extract_rows(ctx, w)}
+    except AnalysisError as e:
+        res.undecided('R-C13-sections', w.qual, 'memory map',
+                      'memory map not extracted: ' + str(e), w.loc)
+        regions = None
+    mem_sections = sorted(regions | {'lua'}) if regions is not None \
+        else None
     ref = sorted(sections)
     for name, other, loc in (
             ('argparse --X/--empty-X pairs', both,
              'pico8.tool:_get_argparser'),
             ('Game.make_empty_game attributes', game_sections, g.qual),
             ('memory map regions + lua', mem_sections, w.qual)):
+        if other is None:
+            continue
         res.check(other == ref, 'R-C13-sections', qual,
                   'loop sections == ' + name,
                   '{} == {}'.format(ref, other),
